@@ -456,7 +456,7 @@ theorem insertionIndex_split (T : List Int) (ts : Int) (hs : T.Pairwise (· ≤ 
 /-- `insertObs` once the index is known to be a valid position -/
 theorem insertChrono_of_index (tr : Track) (o : Obs) (r : Nat) (hr : r ≤ tr.pts.length)
     (h : insertionIndex (tr.pts.map (·.time)) o.time = .ok (r : Int)) :
-    insertChrono tr o = some ⟨tr.pts.take r ++ o :: tr.pts.drop r, tr.names⟩ := by
+    insertChrono tr o = some ⟨tr.pts.take r ++ o :: tr.pts.drop r, tr.table⟩ := by
   unfold insertChrono
   rw [h]
   have : pyInsert tr.pts (r : Int) o = tr.pts.insertIdx r o := by
